@@ -43,11 +43,19 @@ theorem c01_facts_wf : (∀ uc info ue hsem, WF2 (genEnv2 uc info ue hsem) = tru
     simp only [WF2, catches2, paeFlags2, genEnv2, Env.dispatchOf, hm, List.append_nil]
   rw [this]; decide
 
-/-- PathAccessError is a GlomError and catchable as KeyError, IndexError, AttributeError. -/
-theorem c01_pae_bases :
-    let m := ClassTable.mro Generated.excTable "PathAccessError"
-    "GlomError" ∈ m ∧ "KeyError" ∈ m ∧ "IndexError" ∈ m ∧ "AttributeError" ∈ m := by
-  decide
+/-- Whatever PathAccessError the model's `_t_eval` ends with, the observation of it
+    is a GlomError and catchable as KeyError, IndexError and AttributeError. -/
+theorem c01_pae_bases (env : Env) (hwf : WF2 env = true) (o : Out2) (k : Nat) (c : String)
+    (g ke ie ae eo po : Bool) (a : Option Val)
+    (ho : observe2 env o = .pae k c g ke ie ae eo po a) :
+    g = true ∧ ke = true ∧ ie = true ∧ ae = true := by
+  obtain ⟨_, _, _, hflags⟩ := WF2_parts hwf
+  unfold observe2 at ho
+  split at ho <;> try (simp at ho)
+  rw [hflags] at ho
+  simp only at ho
+  obtain ⟨_, _, h1, h2, h3, h4, _⟩ := ho
+  exact ⟨h1.symm, h2.symm, h3.symm, h4.symm⟩
 
 /-- **Refinement.** `_t_eval` on the flat ops tuple (index stepping by 2,
     `part_idx = i // 2`, the registry threaded through the loop) is the
@@ -55,32 +63,41 @@ theorem c01_pae_bases :
     same `Val`, i.e. the same address — identity, not a copy); a PathAccessError
     with the index of the first failing segment and the underlying exception on a
     lookup failure; any other exception unchanged; it touches exactly the
-    segments the walk touches; and it leaves the registry with the same table. -/
+    segments the walk touches, the access-logging objects record exactly the
+    walk's log; and it leaves the registry with the same table. -/
 theorem c01_refines_walk (env : Env) (hwf : WF2 env = true) (r : Reg)
     (hc : r.coherent env.k.ct = true) (h : Heap)
     (steps : List (String × Val)) (hs : wfSteps steps = true) (target : Val) :
     tEval2 env h (Val.sent "T" :: flatOfSteps steps) target r =
       ⟨resOfWalk (walk2 env r.tbl h steps 0 target), walkTouched2 env r.tbl h steps 0 target,
-       walkReg env h steps target r⟩ := by
-  have := tLoop2_eq_walk2 env hwf h (Val.sent "T") steps [] target [] r hs hc
+       walkReg env h steps target r, walkLog2 env r.tbl h steps target⟩ := by
+  have := tLoop2_eq_walk2 env hwf h (Val.sent "T") steps [] target [] r [] hs hc
   simpa [tEval2] using this
 
-/-- **The memo is invisible.** Every call leaves a coherent memo over an unchanged
-    table, and `register` — which replaces the table — leaves an empty one. -/
-theorem c01_memo_invariant (env : Env) (hwf : WF2 env = true) (r : Reg)
-    (hc : r.coherent env.k.ct = true) (h : Heap) :
-    (∀ steps target, wfSteps steps = true →
-      let o := tEval2 env h (Val.sent "T" :: flatOfSteps steps) target r
-      o.reg.tbl = r.tbl ∧ o.reg.coherent env.k.ct = true) ∧
-    (∀ c hn ex, (r.register c hn ex).coherent env.k.ct = true ∧
-      (r.register c hn ex).tbl = r.tbl.register c hn ex) := by
-  constructor
-  · intro steps target hs
-    simp only
-    rw [c01_refines_walk env hwf r hc h steps hs target]
-    exact walkReg_coherent env h steps target r hc
-  · intro c hn ex
-    exact ⟨register_coherent r env.k.ct c hn ex, rfl⟩
+/-- **The memo is invisible.** Whatever history of `register` / `glom` calls the
+    model runs from a coherent registry, the registry it leaves is coherent again,
+    and its table is the one the registrations alone produce. -/
+theorem c01_memo_invariant (env : Env) (hwf : WF2 env = true) (h : Heap) :
+    ∀ (evs : List Event) (r : Reg), r.coherent env.k.ct = true → wfEvents evs = true →
+    (histReg env h r evs).coherent env.k.ct = true ∧
+    (histReg env h r evs).tbl = histTable r.tbl evs := by
+  intro evs
+  induction evs with
+  | nil => intro r hc _; exact ⟨hc, rfl⟩
+  | cons e es ih =>
+    intro r hc hw
+    cases e with
+    | register c hn ex =>
+      simp only [wfEvents] at hw
+      simp only [histReg, histTable]
+      exact ih _ (register_coherent r env.k.ct c hn ex) hw
+    | glom steps tgt =>
+      simp only [wfEvents, Bool.and_eq_true] at hw
+      simp only [histReg, histTable]
+      rw [c01_refines_walk env hwf r hc h steps hw.1 tgt]
+      obtain ⟨ht, hc'⟩ := walkReg_coherent env h steps tgt r hc
+      obtain ⟨h1, h2⟩ := ih _ hc' hw.2
+      exact ⟨h1, by rw [h2, ht]⟩
 
 /-- **Histories.** For every sequence of `register` / `glom` calls on one
     registry that starts coherent (a fresh one does), every `glom` call returns
@@ -88,8 +105,8 @@ theorem c01_memo_invariant (env : Env) (hwf : WF2 env = true) (r : Reg)
     whatever was accessed, resolved and memoised before. -/
 theorem c01_history_refines (env : Env) (hwf : WF2 env = true) (h : Heap) :
     ∀ (evs : List Event) (r : Reg), r.coherent env.k.ct = true → wfEvents evs = true →
-    (runHistory env h r evs).map (fun o => (o.res, o.touched)) =
-      (refHistory env h r.tbl evs).map (fun p => (resOfWalk p.1, p.2)) := by
+    (runHistory env h r evs).map (fun o => (o.res, o.touched, o.log)) =
+      (refHistory env h r.tbl evs).map (fun p => (resOfWalk p.w, p.touched, p.log)) := by
   intro evs
   induction evs with
   | nil => intro r _ _; rfl
@@ -102,7 +119,7 @@ theorem c01_history_refines (env : Env) (hwf : WF2 env = true) (h : Heap) :
       exact ih (r.register c hn ex) (register_coherent r env.k.ct c hn ex) hw
     | glom steps tgt =>
       simp only [wfEvents, Bool.and_eq_true] at hw
-      simp only [runHistory, refHistory, List.map_cons]
+      simp only [runHistory, refHistory, refCall, List.map_cons]
       rw [c01_refines_walk env hwf r hc h steps hw.1 tgt]
       obtain ⟨ht, hc'⟩ := walkReg_coherent env h steps tgt r hc
       simp only
@@ -159,7 +176,9 @@ theorem c01_pae_first (env : Env) (hwf : WF2 env = true) (r : Reg)
 /-- No later segment is touched: on a failure at `k` (or an exception escaping
     from segment `k`) exactly the accesses `0, 1, …, k` ran, in that order; on
     success exactly `0 … n-1`; a segment for whose value no handler is registered
-    is not applied at all (`0 … k-1` ran). -/
+    is not applied at all (`0 … k-1` ran); and what the access-logging objects
+    record is the log of the path cut after the segment that ended the walk — the
+    later segments contribute nothing. -/
 theorem c01_prefix_only (env : Env) (hwf : WF2 env = true) (r : Reg)
     (hc : r.coherent env.k.ct = true) (h : Heap)
     (steps : List (String × Val)) (hs : wfSteps steps = true) (target : Val) :
@@ -169,11 +188,13 @@ theorem c01_prefix_only (env : Env) (hwf : WF2 env = true) (r : Reg)
     (∀ k e, walk2 env r.tbl h steps 0 target = .escapes k e →
       out.touched.map (·.1) = List.range (k + 1)) ∧
     (∀ k, walk2 env r.tbl h steps 0 target = .noHandler k →
-      out.touched.map (·.1) = List.range k) := by
+      out.touched.map (·.1) = List.range k) ∧
+    (∀ k, (walk2 env r.tbl h steps 0 target).idx = some k →
+      out.log = walkLog2 env r.tbl h (steps.take (k + 1)) target) := by
   simp only
   rw [c01_refines_walk env hwf r hc h steps hs]
   have hidx := walkTouched2_idx env r.tbl h steps 0 target
-  refine ⟨?_, ?_, ?_, ?_⟩
+  refine ⟨?_, ?_, ?_, ?_, fun k hk => by simpa using walkLog2_take env r.tbl h steps 0 target k hk⟩
   · intro k e hr
     cases hw : walk2 env r.tbl h steps 0 target with
     | fail k' e' =>
@@ -213,48 +234,94 @@ theorem c01_only_pae (env : Env) (hwf : WF2 env = true) (r : Reg)
   cases hw : walk2 env r.tbl h steps 0 target <;> simp [resOfWalk] <;>
     (rw [hw] at hd; simp [WalkRes2.inDomain] at hd)
 
-/-- A plain segment whose handler raises an `Exception` — whatever handler it is —
-    never lets it escape: it is the PathAccessError of that segment. -/
-theorem c01_handler_failure_is_pae (env : Env) (t : Table) (h : Heap) (cur arg : Val) (e : PyExc)
-    (hn : Handler) (hh : t.nearest env.k.ct (cur.clsName h) = some hn)
-    (he : env.applyHandler h hn cur arg = .err e)
-    (hexc : env.excTable.isSub e.cls "Exception" = true) :
-    refStep env t h "P" cur arg = .fail e := by
-  have h1 : ("P" == ".") = false := by decide
-  have h2 : ("P" == "[") = false := by decide
-  simp [refStep, h1, h2, hh, he, classify, lookupKinds, Env.isKind, hexc]
+/-- The only exceptions the model's `_t_eval` lets through unchanged: if it ends
+    with `raised e`, then `e` was raised by the access of some segment `k` after the
+    segments before it succeeded, it is not a lookup exception of that access — and
+    if that segment is a plain one, applied with a registered handler (whatever the
+    handler is), `e` is not an `Exception` at all. -/
+theorem c01_handler_failure_is_pae (env : Env) (hwf : WF2 env = true) (r : Reg)
+    (hc : r.coherent env.k.ct = true) (h : Heap)
+    (steps : List (String × Val)) (hs : wfSteps steps = true) (target : Val) (e : PyExc)
+    (hr : (tEval2 env h (Val.sent "T" :: flatOfSteps steps) target r).res = .error (.raised e)) :
+    ∃ k u st, steps[k]? = some st ∧ Reaches2 env r.tbl h target (steps.take k) u ∧
+      refStep env r.tbl h st.1 u st.2 = .escapes e ∧
+      (st.1 = "P" → env.excTable.isSub e.cls "Exception" = false) := by
+  rw [c01_refines_walk env hwf r hc h steps hs] at hr
+  cases hw : walk2 env r.tbl h steps 0 target with
+  | escapes k e' =>
+    rw [hw] at hr; simp [resOfWalk] at hr; subst hr
+    obtain ⟨_, u, hu, st, hst, hesc⟩ := walk2_escapes_first env r.tbl h steps target k e' hw
+    refine ⟨k, u, st, hst, hu, hesc, ?_⟩
+    intro hp
+    obtain ⟨op, arg⟩ := st
+    simp only at hp; subst hp
+    have h1 : ("P" == ".") = false := by decide
+    have h2 : ("P" == "[") = false := by decide
+    simp only [refStep, h1, h2, beq_self_eq_true, if_true, Bool.false_eq_true, if_false] at hesc
+    split at hesc
+    · rename_i hn _
+      cases ha : env.applyHandler h hn u arg with
+      | ok v => rw [ha] at hesc; simp [classify] at hesc
+      | beyond => rw [ha] at hesc; simp [classify] at hesc
+      | err e2 =>
+        rw [ha] at hesc
+        simp only [classify] at hesc
+        split at hesc
+        · contradiction
+        · rename_i hk
+          injection hesc with hesc; subst hesc
+          simpa [lookupKinds, Env.isKind, h1, h2] using hk
+    · contradiction
+  | ok v => rw [hw] at hr; simp [resOfWalk] at hr
+  | fail k e => rw [hw] at hr; simp [resOfWalk] at hr
+  | noHandler k => rw [hw] at hr; simp [resOfWalk] at hr
+  | beyond k => rw [hw] at hr; simp [resOfWalk] at hr
+  | notAccess k => rw [hw] at hr; simp [resOfWalk] at hr
 
-/-- A dotted string denotes the same path as `Path(seg₀, …, segₙ)`: for
-    segments free of `'.'` that are not `*`/`**`, `Path.from_text('.'.join(segs))`
-    builds exactly the ops tuple of `Path(*segs)`. -/
-theorem c01_text_eq_path (segs : List (List Char)) (hne : segs ≠ [])
-    (hnd : ∀ s ∈ segs, '.' ∉ s) (hns : ∀ s ∈ segs, s ≠ ['*'] ∧ s ≠ ['*', '*']) :
-    flatOfParts (partsOfText (intercalateDot segs)) =
-      flatOfParts (segs.map (fun s => Part.seg (Val.str (String.ofList s)))) := by
-  unfold partsOfText
+/-- A dotted string denotes the same path as `Path(seg₀, …, segₙ)`: for segments
+    free of `'.'` — and, when `PATH_STAR` is on, other than `*` / `**` —
+    `Path.from_text('.'.join(segs))` builds exactly the steps of `Path(*segs)`; with
+    `PATH_STAR` off every segment is a plain one. -/
+theorem c01_text_eq_path (star : Bool) (segs : List (List Char)) (hne : segs ≠ [])
+    (hnd : ∀ s ∈ segs, '.' ∉ s) (hns : star = true → ∀ s ∈ segs, s ≠ ['*'] ∧ s ≠ ['*', '*']) :
+    stepsOfParts2 (partsOfTextS star (intercalateDot segs)) =
+      segs.map (fun s => ("P", Val.str (String.ofList s))) := by
+  unfold partsOfTextS
   rw [splitDot_intercalate segs hne hnd]
-  congr 1
-  apply List.map_congr_left
-  intro s hs
-  simp [(hns s hs).1, (hns s hs).2]
+  have : segs.map (fun seg =>
+      if star && seg = ['*'] then Part2.t [("x", Val.none)]
+      else if star && seg = ['*', '*'] then Part2.t [("X", Val.none)]
+      else Part2.seg (Val.str (String.ofList seg))) =
+      (segs.map (fun s => Val.str (String.ofList s))).map Part2.seg := by
+    rw [List.map_map]
+    apply List.map_congr_left
+    intro s hs
+    cases star with
+    | false => simp
+    | true => simp [(hns rfl s hs).1, (hns rfl s hs).2]
+  rw [this, stepsOfParts2_segs, List.map_map]
+  rfl
 
-/-- `Path('a', T.b, T['c'])`: parts are flattened in order, each `T` part
-    contributing its own steps, each plain part a `P` step. -/
-theorem c01_mixed (a b : List Part) :
-    stepsOfParts (a ++ b) = stepsOfParts a ++ stepsOfParts b := by
-  induction a with
-  | nil => rfl
-  | cons p r ih => cases p <;> simp [stepsOfParts, ih]
+/-- `Path('a', T.b, Path('c', Path(T.d)))`: parts are flattened in order — a plain
+    part is one `P` step, a `T` part contributes its own steps, a nested Path the
+    steps of its parts, at any depth and in any position (first part included). -/
+theorem c01_mixed (a b ps : List Part2) (v : Val) (st : List (String × Val)) :
+    stepsOfParts2 (a ++ b) = stepsOfParts2 a ++ stepsOfParts2 b ∧
+    stepsOfParts2 (.path ps :: b) = stepsOfParts2 ps ++ stepsOfParts2 b ∧
+    stepsOfParts2 (.seg v :: b) = ("P", v) :: stepsOfParts2 b ∧
+    stepsOfParts2 (.t st :: b) = st ++ stepsOfParts2 b := by
+  refine ⟨stepsOfParts2_append a b, ?_, ?_, ?_⟩ <;> simp [stepsOfParts2, stepsOfPart2]
 
 /-- **Checker theorem** — the form in which the property is also evaluated on
     the implementation's observations by the correspondence driver: for every
     history whose walks stay inside the modelled domain, the model's observations
-    satisfy `checkC01h`. -/
+    (result, identity token of a class attribute, error, access log) satisfy
+    `checkC01h`. -/
 theorem c01_model_checks (env : Env) (hwf : WF2 env = true) (h : Heap) :
     ∀ (evs : List Event) (r : Reg), r.coherent env.k.ct = true → wfEvents evs = true →
-    (refHistory env h r.tbl evs).all (fun p => p.1.inDomain) = true →
+    (refHistory env h r.tbl evs).all (fun p => p.w.inDomain) = true →
     checkC01h env h r.tbl evs
-      ((runHistory env h r evs).map (fun o => (observe2 env o, some (touchedAddrs o.touched)))) = true := by
+      ((runHistory env h r evs).map (fun o => (observe2 env o, o.log))) = true := by
   obtain ⟨_, _, _, hflags⟩ := WF2_parts hwf
   intro evs
   induction evs with
@@ -274,14 +341,16 @@ theorem c01_model_checks (env : Env) (hwf : WF2 env = true) (h : Heap) :
       rw [c01_refines_walk env hwf r hc h steps hw.1 tgt]
       obtain ⟨ht, hc'⟩ := walkReg_coherent env h steps tgt r hc
       constructor
-      · simp only [checkOne, isSubseq_refl, Bool.and_true]
+      · simp only [checkOne, refCall, beq_self_eq_true, Bool.and_true]
         cases hwk : walk2 env r.tbl h steps 0 tgt with
-        | ok v => simp [resOfWalk, observe2, valMatch]
+        | ok v =>
+          simp only [resOfWalk, observe2, valMatch]
+          cases htk : tokenOf v <;> simp
         | fail k e => simp [resOfWalk, observe2, hflags]
         | escapes k e => simp [resOfWalk, observe2]
         | noHandler k => simp [resOfWalk, observe2]
-        | beyond k => rw [hwk] at hd; simp [WalkRes2.inDomain] at hd
-        | notAccess k => rw [hwk] at hd; simp [WalkRes2.inDomain] at hd
+        | beyond k => rw [refCall, hwk] at hd; simp [WalkRes2.inDomain] at hd
+        | notAccess k => rw [refCall, hwk] at hd; simp [WalkRes2.inDomain] at hd
       · have := ih _ hc' hw.2 (by rw [ht]; exact hd.2)
         simp only [checkC01h, ht] at this
         exact this
@@ -371,7 +440,7 @@ private def exClasses : ClassTable :=
    ("Counter", ["Counter", "dict", "_AbstractIterable", "_ObjStyleKeys", "object"])]
 
 private def exInfo : List (String × ClsInfo) :=
-  [("Pt", { fields := ["a", "b"], attrs := ["_fields"] }), ("Counter", { missing := some (.const (.int 0)) })]
+  [("Pt", { fields := ["a", "b"], attrs := [("_fields", "const", "")] }), ("Counter", { missing := some (.const (.int 0)) })]
 
 private def exEnv : Env := genEnv2 exClasses exInfo [] (fun _ _ _ _ => .beyond)
 
@@ -397,8 +466,18 @@ example : walk2 exEnv (defaultTable.register "Rec" (some (.table "_tab")) true) 
 /-- `get=False`: no handler — UnregisteredTarget, the segment is not applied -/
 example : walk2 exEnv (defaultTable.register "Rec" (some .off) false) exHeap
     [("P", .str "a"), ("P", .int 1), ("P", .str "x")] 0 (.ref 0) = .noHandler 2 := by decide
-/-- class attributes are reached as opaque objects; an access on one is outside the domain -/
-example : walk2 exEnv defaultTable exHeap [(".", .str "keys")] 0 (.ref 0) = .ok opaqueVal := by decide
+/-- class attributes are reached with their identity: the bound method of *this* dict, the
+    classmethod of its class, the very tuple in `Pt.__dict__`, the class itself; an access
+    on one is outside the domain -/
+example : walk2 exEnv defaultTable exHeap [(".", .str "keys")] 0 (.ref 0) = .ok (.sent "bm|r0|keys") := by
+  decide
+example : walk2 exEnv defaultTable exHeap [(".", .str "fromkeys")] 0 (.ref 3)
+    = .ok (.sent "cm|dict|fromkeys") := by decide
+example : walk2 exEnv defaultTable exHeap [(".", .str "_fields")] 0 (.ref 4) = .ok (.sent "ca|Pt|_fields") := by
+  decide
+example : walk2 exEnv defaultTable exHeap [("P", .str "__class__")] 0 (.ref 2) = .ok (.sent "ty|Row") := by
+  decide
+example : walk2 exEnv defaultTable exHeap [("P", .str "real")] 0 (.int 7) = .ok opaqueVal := by decide
 example : walk2 exEnv defaultTable exHeap [(".", .str "__class__"), (".", .str "__name__")] 0 (.ref 2)
     = .beyond 1 := by decide
 /-- `__missing__` (Counter) and namedtuple fields -/
